@@ -595,3 +595,111 @@ func checkPrefixOrder(c *Ctx, r *Rec, role, rule string) {
 		r.check(bad == "", rule, c.fdName(fd), c.pos(fd.Pos()), fmt.Sprintf("%d prefix tests, none shadowed by an earlier shorter prefix", len(ents)), bad)
 	}
 }
+
+// ---------------------------------------------------------------- rank leaves by role
+
+// rankLeaf: the function that ranks two values of one class of primitives.
+type rankLeaf struct {
+	class string // boolean, signed, unsigned, float, complex, string
+	fd    *ast.FuncDecl
+	info  *types.Info
+}
+
+func basicClass(t types.Type) string {
+	b, ok := t.Underlying().(*types.Basic)
+	if !ok {
+		return ""
+	}
+	switch {
+	case b.Info()&types.IsBoolean != 0:
+		return "boolean"
+	case b.Info()&types.IsUnsigned != 0:
+		return "unsigned"
+	case b.Info()&types.IsInteger != 0:
+		return "signed"
+	case b.Info()&types.IsFloat != 0:
+		return "float"
+	case b.Info()&types.IsComplex != 0:
+		return "complex"
+	case b.Info()&types.IsString != 0:
+		return "string"
+	}
+	return ""
+}
+
+// rankLeaves binds the leaves through the dispatch: every arm of the intrinsic ranker ends in a
+// call f(x, y) on two extracted primitives; f (a method or a free, possibly generic, function
+// of the repository) is the leaf for the class of x.  Without an intrinsic ranker the
+// collator's own two-primitive methods that return a Rank are taken.  Construct names use the
+// class, not the private function name.
+func rankLeaves(c *Ctx, cr *collRoles) []rankLeaf {
+	info := cr.info
+	var out []rankLeaf
+	seen := map[string]bool{}
+	add := func(class string, fd *ast.FuncDecl) {
+		if class == "" || fd == nil || fd.Body == nil {
+			return
+		}
+		key := class + "/" + c.fdName(fd)
+		if seen[key] {
+			return
+		}
+		seen[key] = true
+		out = append(out, rankLeaf{class, fd, c.infoFor(fd)})
+	}
+	if rankD := findDispatcher(c, cr, true); rankD != nil {
+		var visit func(fd *ast.FuncDecl, depth int)
+		visit = func(fd *ast.FuncDecl, depth int) {
+			ast.Inspect(fd.Body, func(x ast.Node) bool {
+				rs, ok := x.(*ast.ReturnStmt)
+				if !ok || len(rs.Results) != 1 {
+					return true
+				}
+				call, ok := ast.Unparen(rs.Results[0]).(*ast.CallExpr)
+				if !ok || len(call.Args) != 2 {
+					return true
+				}
+				cf := calleeOf(info, call)
+				if cf == nil {
+					return true
+				}
+				d := c.declOf(cf.Origin())
+				if d == nil {
+					d = c.declOf(cf)
+				}
+				if d == nil || d == fd {
+					return true
+				}
+				t0 := info.TypeOf(call.Args[0])
+				if t0 != nil && basicClass(t0) != "" && types.Identical(t0, info.TypeOf(call.Args[1])) {
+					add(basicClass(t0), d)
+				} else if depth < 1 && isNamedFrom(t0, "reflect", "Value") {
+					if sw, _ := kindClauses(info, d); sw != nil {
+						visit(d, depth+1) // the intrinsic ranker
+					}
+				}
+				return true
+			})
+		}
+		visit(rankD, 0)
+	}
+	if len(out) == 0 {
+		for _, name := range sortedKeys(cr.ms) {
+			fd := cr.ms[name]
+			if ast.IsExported(name) || !cr.returnsRank(c, fd) {
+				continue
+			}
+			params := paramObjs(info, fd)
+			if len(params) == 2 && types.Identical(params[0].Type(), params[1].Type()) {
+				add(basicClass(params[0].Type()), fd)
+			}
+		}
+	}
+	sort.Slice(out, func(i, j int) bool {
+		if out[i].class != out[j].class {
+			return out[i].class < out[j].class
+		}
+		return out[i].fd.Name.Name < out[j].fd.Name.Name
+	})
+	return out
+}
